@@ -8,6 +8,7 @@ package main
 // float64 detour in Decimal conversions.
 
 import (
+	"time"
 	"fmt"
 	"go/ast"
 	"go/constant"
@@ -392,6 +393,74 @@ func sprintfToLayout(f string) string {
 	return out
 }
 
+// candidateLayouts: the FHIR text forms of an element type, as Go layouts.
+func candidateLayouts(typ string) []string {
+	switch typ {
+	case "Date":
+		return []string{"2006-01-02", "2006-01", "2006"}
+	case "Time":
+		return []string{"15:04:05.000000", "15:04:05.000", "15:04:05"}
+	}
+	var out []string
+	for _, frac := range []string{".000000", ".000", ""} {
+		for _, zone := range []string{"-07:00", "Z"} {
+			out = append(out, "2006-01-02T15:04:05"+frac+zone)
+		}
+	}
+	if typ == "DateTime" {
+		out = append(out, "2006-01-02", "2006-01", "2006")
+	}
+	return out
+}
+
+// parsePrecisionOf: the precision (enum name) of the element that the fhir parser
+// hands back for a sample text written in the given layout; ok is false when
+// the parser rejects the text or the result does not fold.
+func parsePrecisionOf(p *Program, pfn *ssa.Function, typ, lay string) (string, bool) {
+	sample := time.Date(2020, 2, 29, 13, 5, 9, 120000000, time.FixedZone("", 19800))
+	text := sample.Format(lay)
+	if strings.HasSuffix(lay, "Z") && !strings.HasSuffix(lay, "-07:00") {
+		text = sample.UTC().Format(lay)
+	}
+	an := newAnalyzer()
+	an.maxBlocks = 300
+	an.maxDepth = 6
+	an.unroll = 16
+	an.snapshots = true
+	res := an.analyze(pfn, []aval{cStr(text)})
+	if res.nonconverged {
+		return "", false
+	}
+	t := typeByName(p, dtPkgPath, typ)
+	if t == nil {
+		return "", false
+	}
+	pi := structFieldIndex(t, "Precision")
+	prec := ""
+	for _, ri := range res.rets {
+		if len(ri.vals) != 2 || ri.vals[1].k != kNil {
+			continue
+		}
+		v := ri.vals[0]
+		if v.ptrOf == nil || v.ptrOf.k != kStruct || pi < 0 || pi >= len(v.ptrOf.elems) || v.ptrOf.elems[pi].k != kConst {
+			return "", false
+		}
+		name := ""
+		for _, pv := range precisionEnum(p, typ) {
+			if pk := p.SSAPkg[dtPkgPath]; pk != nil {
+				if c, ok := pk.Pkg.Scope().Lookup(pv).(*types.Const); ok && constant.Compare(c.Val(), token.EQL, v.ptrOf.elems[pi].c) {
+					name = pv
+				}
+			}
+		}
+		if name == "" || (prec != "" && prec != name) {
+			return "", false
+		}
+		prec = name
+	}
+	return prec, prec != ""
+}
+
 // formatLayoutFor: the distinct layouts (Time.Format) or patterns (fmt.Sprintf
 // with %d verbs) a fhirconv formatter uses for an element whose precision is
 // pv; n is their number.
@@ -472,7 +541,22 @@ func ruleLIT2(p *Program) *RuleResult {
 		}
 		fpos := ffn.Pos()
 		if len(rows) == 0 {
-			return r.anchorFail(fmt.Errorf("anchor: no layout table in fhir.%s", t.parse))
+			// the parser's table is not a literal in its body (package-level table, helper):
+			// the rows are obtained by *evaluating* the parser on a text in each candidate
+			// layout and reading the precision of the element it hands back
+			pfn, err := p.Func("internal/fhir", t.parse)
+			if err != nil {
+				return r.anchorFail(err)
+			}
+			pos = pfn.Pos()
+			for _, lay := range candidateLayouts(t.typ) {
+				if prec, ok := parsePrecisionOf(p, pfn, t.typ, lay); ok {
+					rows = append(rows, fmtRow{lay, prec})
+				}
+			}
+			if len(rows) == 0 {
+				return r.anchorFail(fmt.Errorf("anchor: fhir.%s accepts none of the candidate layouts (not evaluable)", t.parse))
+			}
 		}
 		// enum values of the precision type
 		enum := precisionEnum(p, t.typ)
